@@ -23,7 +23,8 @@ SENTINEL = b"\xa5\x5a\xc3"
 
 
 def shards(tier, seed):
-    return list(range(len(TS.type_space(tier)))) + ["identity"]
+    n = len(TS.type_space(tier))
+    return list(range(n)) + ["identity"] + [("@", i, "python-O") for i in range(n)] + [("@", "identity", "python-O")] + [("@", i, "debuglog") for i in range(0, n, 7)]
 
 
 SERIALS = sorted({0, 1, 0xF, 0x10, 0xABC, 0xABCD, 0xABCDE, 0xABCDEF, 0xABCDEF0, 0x0FFFFFFF, 0x10000000, 0x80000000, 0xFFFFFFFF, 0x00000A0B, 0x0F000000, 0xDEADBEEF})
